@@ -12,6 +12,8 @@ pub fn child(_a: &Args) -> i32 {
 struct Built {
     db: abyssiniandb::filedb::FileDb,
     map: abyssiniandb::filedb::FileDbMapDbBytes,
+    /// clean maps of other key types in the same database (visited after the bytes map by a database-level sync)
+    _side: (abyssiniandb::filedb::FileDbMapDbString, abyssiniandb::filedb::FileDbMapDbVu64),
     model: Model,
     keys: Vec<Vec<u8>>,
 }
@@ -41,7 +43,11 @@ fn build(dir: &Path, shape: u32, seed: u64) -> Result<Built, String> {
         map.put(&k[..], &v).map_err(|e| e.to_string())?;
         model.insert(k.clone(), v);
     }
-    map.sync_all().map_err(|e| e.to_string())?;
+    let mut side_s = db.db_map_string_with_params("zz_side_s", Cfg::small(8).params()).map_err(|e| e.to_string())?;
+    let mut side_v = db.db_map_vu64_with_params("zz_side_v", Cfg::small(8).params()).map_err(|e| e.to_string())?;
+    side_s.put_string("clean", "map").map_err(|e| e.to_string())?;
+    side_v.put(&7u64, b"clean").map_err(|e| e.to_string())?;
+    db.sync_all().map_err(|e| e.to_string())?;
     // phase 2: unsynced updates touching all three files (inserts, overwrites that relocate, deletes)
     for (i, k) in keys.iter().enumerate().skip(nkeys / 2) {
         let v = crate::util::gen_bytes(vlen + (i % 5), 500 + i as u32, 0);
@@ -59,7 +65,7 @@ fn build(dir: &Path, shape: u32, seed: u64) -> Result<Built, String> {
             model.remove(k);
         }
     }
-    Ok(Built { db, map, model, keys })
+    Ok(Built { db, map, model, keys, _side: (side_s, side_v) })
 }
 
 fn disk_len(dir: &Path, ext: &str) -> u64 {
@@ -256,7 +262,26 @@ fn one_threshold(a: &Args, shape: u32, seed: u64, t: u64, kind: u32, ctx: &mut C
             return Err(format!("{ctxs} after the limit is lifted len() is {:?}, model {}", match other { Guard::Ok(x) => format!("{x:?}"), _ => "panic".into() }, b.model.len()));
         }
     }
-    // a few more updates, then the recovering flush
+    // the recovering flush, with nothing in between: it alone must make every update durable
+    let _ = hooks::take_io_events();
+    let r1 = guarded(crate::session::STEP_BUDGET_BASE, || if kind % 2 == 0 { b.map.flush() } else { b.map.sync_data() });
+    let _ = hooks::take_io_events();
+    match r1 {
+        Guard::Ok(Ok(())) => {}
+        Guard::Ok(Err(e)) => {
+            hooks::record_io_events(false);
+            return Err(format!("{ctxs} the flush after the limit was lifted returns Err({e})"));
+        }
+        Guard::Hang(m) | Guard::Panic(m) => {
+            hooks::record_io_events(false);
+            return Err(format!("{ctxs} the flush after the limit was lifted panicked: {m}"));
+        }
+    }
+    if let Err(m) = snapshot_equals_model(&dir, &snap, &b.model) {
+        hooks::record_io_events(false);
+        return Err(if m.starts_with("HARNESS") { m } else { format!("{ctxs} once the limit is lifted a flush returns Ok, but {m}") });
+    }
+    // a few more updates and another flush: everything durable again, every file flushed
     for (i, k) in b.keys.iter().enumerate().take(5) {
         let v = crate::util::gen_bytes(33 + i, 7000 + i as u32, 0);
         b.map.put(&k[..], &v).map_err(|e| format!("{ctxs} put after the fault: {e}"))?;
@@ -268,16 +293,16 @@ fn one_threshold(a: &Args, shape: u32, seed: u64, t: u64, kind: u32, ctx: &mut C
     hooks::record_io_events(false);
     match r2 {
         Guard::Ok(Ok(())) => {}
-        Guard::Ok(Err(e)) => return Err(format!("{ctxs} the flush after the limit was lifted returns Err({e})")),
-        Guard::Hang(m) | Guard::Panic(m) => return Err(format!("{ctxs} the flush after the limit was lifted panicked: {m}")),
+        Guard::Ok(Err(e)) => return Err(format!("{ctxs} a later flush returns Err({e})")),
+        Guard::Hang(m) | Guard::Panic(m) => return Err(format!("{ctxs} a later flush panicked: {m}")),
     }
     for f in ["key", "val", "htx"] {
         if !ev2.iter().any(|e| e.file == f && e.ok) {
-            return Err(format!("{ctxs} the recovering flush did not flush the .{f} file (events: {})", ev2.iter().map(|e| format!("{}:{}", e.file, e.ok)).collect::<Vec<_>>().join(" ")));
+            return Err(format!("{ctxs} the flush after further updates did not flush the .{f} file (events: {})", ev2.iter().map(|e| format!("{}:{}", e.file, e.ok)).collect::<Vec<_>>().join(" ")));
         }
     }
     if let Err(m) = snapshot_equals_model(&dir, &snap, &b.model) {
-        return Err(if m.starts_with("HARNESS") { m } else { format!("{ctxs} after the recovering flush {m}") });
+        return Err(if m.starts_with("HARNESS") { m } else { format!("{ctxs} after further updates and a successful flush {m}") });
     }
     ctx.count("recoveries_verified", 1);
     drop(b);
